@@ -9,6 +9,8 @@ import (
 	"reflect"
 	"strings"
 	"sync"
+	"syscall"
+	"time"
 
 	"pault.ag/go/debian/changelog"
 
@@ -18,7 +20,7 @@ import (
 // File entry points: changelog.ParseFile / changelog.ParseFileOne, with the path given in several forms. The text is
 // written to a scratch file; the relative forms change the working directory, which is process-wide, so every use of
 // a file entry point (and the restoring of the directory) is serialised under cwdMu.
-var entryPoints = []string{"file-abs", "file-bare", "file-dot", "file-dotdot", "file-missing"}
+var entryPoints = []string{"file-abs", "file-bare", "file-dot", "file-dotdot", "file-symlink", "file-fifo", "file-missing", "file-dir"}
 
 var cwdMu sync.Mutex
 
@@ -38,6 +40,7 @@ func viaFile(in In, text string) (entries []changelog.ChangelogEntry, err error)
 		panic("harness: " + e.Error())
 	}
 	path, cd := filepath.Join(dir, "changelog"), ""
+	var fifoDone chan struct{}
 	switch in.Entry {
 	case "file-bare":
 		path, cd = "changelog", dir
@@ -47,10 +50,33 @@ func viaFile(in In, text string) (entries []changelog.ChangelogEntry, err error)
 		path, cd = "../changelog", filepath.Join(dir, "sub")
 	case "file-missing":
 		path = filepath.Join(dir, "no-such-changelog")
+	case "file-dir":
+		path = filepath.Join(dir, "sub") // a directory
+	case "file-symlink":
+		path = filepath.Join(dir, "link")
+		if e := os.Symlink("changelog", path); e != nil {
+			panic("harness: " + e.Error())
+		}
+	case "file-fifo":
+		// a named pipe: not a regular file (Stat reports size 0); a goroutine writes the bytes once a reader opens it
+		path = filepath.Join(dir, "fifo")
+		if e := syscall.Mkfifo(path, 0o600); e != nil {
+			panic("harness: mkfifo: " + e.Error())
+		}
+		fifoDone = make(chan struct{})
+		go func() {
+			defer close(fifoDone)
+			w, e := os.OpenFile(path, os.O_WRONLY, 0) // blocks until the pipe is opened for reading
+			if e != nil {
+				return
+			}
+			w.Write([]byte(text)) // smaller than the pipe buffer; EPIPE if the reader has gone is fine
+			w.Close()
+		}()
 	}
-	cwdMu.Lock()
-	defer cwdMu.Unlock()
 	if cd != "" {
+		cwdMu.Lock()
+		defer cwdMu.Unlock()
 		old, e := os.Getwd()
 		if e != nil {
 			panic("harness: " + e.Error())
@@ -60,21 +86,47 @@ func viaFile(in In, text string) (entries []changelog.ChangelogEntry, err error)
 		}
 		defer os.Chdir(old)
 	}
-	if in.API == "Parse" {
-		es, e := changelog.ParseFile(path)
-		return es, e
+	call := func() {
+		if in.API == "Parse" {
+			es, e := changelog.ParseFile(path)
+			entries, err = es, e
+			return
+		}
+		one, e := changelog.ParseFileOne(path)
+		switch {
+		case e == io.EOF && one == nil:
+		case e != nil:
+			err = e
+		case one == nil:
+			err = fmt.Errorf("harness: ParseFileOne returned (nil, nil)")
+		default:
+			entries = []changelog.ChangelogEntry{*one}
+		}
 	}
-	one, e := changelog.ParseFileOne(path)
-	if e == io.EOF && one == nil {
-		return nil, nil
+	if fifoDone == nil {
+		call()
+		return entries, err
 	}
-	if e != nil {
-		return nil, e
+	var pmsg interface{}
+	finished := mc.WithTimeout(20*time.Second, func() {
+		defer func() { pmsg = recover() }()
+		call()
+	})
+	// release a writer that is still waiting for a reader (the library never opened the pipe)
+	if r, e := os.OpenFile(path, os.O_RDONLY|syscall.O_NONBLOCK, 0); e == nil {
+		select {
+		case <-fifoDone:
+		case <-time.After(5 * time.Second):
+		}
+		r.Close()
 	}
-	if one == nil {
-		return nil, fmt.Errorf("harness: ParseFileOne returned (nil, nil)")
+	if !finished {
+		return nil, fmt.Errorf("harness: timeout: ParseFile on a named pipe did not return within 20 s")
 	}
-	return []changelog.ChangelogEntry{*one}, nil
+	if pmsg != nil {
+		panic(pmsg)
+	}
+	return entries, err
 }
 
 func errClass(err error) string {
@@ -111,9 +163,9 @@ func sameEntries(a, b []changelog.ChangelogEntry) bool {
 // checkFileAgainstReader: the file entry point must behave like the reader entry point on the same bytes
 // (entries field by field, or the same class of error); a missing file is an error and no entries.
 func checkFileAgainstReader(scen string, in In, text string, got []changelog.ChangelogEntry, gotErr error, features []string) *mc.Violation {
-	if in.Entry == "file-missing" {
+	if in.Entry == "file-missing" || in.Entry == "file-dir" {
 		if gotErr == nil || len(got) != 0 {
-			return vt(text, scen, "missing-file-is-an-error", in, "an error, no entries", fmt.Sprintf("%d entries, error %v", len(got), gotErr), features...)
+			return vt(text, scen, map[string]string{"file-missing": "missing-file-is-an-error", "file-dir": "directory-is-an-error"}[in.Entry], in, "an error, no entries", fmt.Sprintf("%d entries, error %v", len(got), gotErr), features...)
 		}
 		return nil
 	}
